@@ -291,6 +291,19 @@ class VLoop(asyncio.SelectorEventLoop):
         return ep, protocol
 
 
+class LibraryNeverReturned(Exception):
+    """A coroutine of the library did not return within a week of the loop's virtual clock."""
+
+
+async def bounded(coro):
+    """Await a coroutine of the library, but not for ever: on the virtual clock a week costs nothing, and a call that has not
+    returned by then never will (the check goes on and reports it instead of hanging).  For loops made with vtime=True."""
+    try:
+        return await asyncio.wait_for(coro, 7 * 86400)
+    except asyncio.TimeoutError:
+        raise LibraryNeverReturned("no return within a week of virtual time") from None
+
+
 async def settle(n: int = 4):
     for _ in range(n):
         await asyncio.sleep(0)
